@@ -310,6 +310,23 @@ def run(ctx):
             one(doc, "mother-spellings", rd)
     for doc, ev in A.other_family_docs():
         one(doc, "other-families", readers[len(ev) % 3])
+    # few lines, deep nesting: a partial daughter several levels down in a file of only one to three decay lines (each written
+    # line may supply several levels of nesting by itself); reading only - these five-body event types are not converted
+    deep = [("B-", ["K-", "pi+", "pi-", "pi+", "pi-"], ["D", "B-", None, None, [["D", "D0", None, None, [["D", "K(1)(1270)bar-", None, None,
+             [["D", "rho(770)0", None, None, []], ["D", "K-", None, None, []]]], ["D", "pi+", None, None, []]]], ["D", "pi-", None, None, []]]], ["rho(770)0"]),
+            ("B-", ["K-", "pi+", "pi-", "pi+", "pi-"], ["D", "B-", None, None, [["D", "D0", None, None, [["D", "K(1)(1270)bar-", None, None, []], ["D", "pi+", None, None, []]]],
+                                                                        ["D", "pi-", None, None, []]]], ["K(1)(1270)bar-", "rho(770)0"])]
+    for mo, fs, top, partials in deep:
+        for n_alt in (1, 2):
+            doc = [["event_type", [mo] + fs], ["line", top] + A.coupling(rng)]
+            for nm in partials:
+                for _ in range(n_alt if nm == partials[-1] else 1):
+                    if nm in A.PAIRS:
+                        doc.append(["line", A.two_body(rng, nm, tag=False)] + A.coupling(rng))
+                    else:
+                        doc.append(["line", ["D", nm, None, None, [["D", "rho(770)0", None, None, []], ["D", "K-", None, None, []]]]] + A.coupling(rng))
+            for rd in readers:
+                one(doc, "few-lines-deep-nesting", rd)
     for i in range(n_docs):
         doc, ev = A.gen_amp_doc(rng)
         one(doc, "generated", readers[i % 3])
